@@ -418,6 +418,12 @@ def apply_rewrites(src, mask, it, ed, stats, spec_entry):
     for (s0, e0, end0) in r7b:
         ed.replace(s0, end0, 'crate::spec::f32_to_usize(%s)' % r7_rewrite_string(src[s0:e0]))
         stats['R7_cast_f32'] = stats.get('R7_cast_f32', 0) + 1
+    # R7c: the constant `std::f32::consts::PI` => `f32_pi()` (wrapper returning the constant; Verus has no spec for core::f32::consts)
+    for m in re.finditer(r'\b(?:std|core)::f32::consts::PI\b', body):
+        if mask[lo + m.start()] != ord('c'): continue
+        if any(x <= lo + m.start() and lo + m.end() <= y + 1 for x, y in r4_ranges): continue
+        ed.replace(lo + m.start(), lo + m.end(), 'crate::spec::f32_pi()')
+        stats['R7_cast_f32'] = stats.get('R7_cast_f32', 0) + 1
     # R5b: `for &x in E { B }` => `for x in E { let x = *x; B }` (reference pattern on a Copy element)
     for L in loops:
         if L['kind'] != 'for': continue
